@@ -97,6 +97,7 @@ fn profile(prop: &str, tier: Tier, rng: &mut Rng) -> Profile {
             p.s_inst = 4;
         }
         "C02" => {
+            p.s_migrate = 4;
             p.fail = 22;
             p.sweep = 30;
             p.reply = 80;
@@ -228,6 +229,8 @@ struct Gen<'a> {
     /// non-bonded denominations that may still receive one huge mint
     huge_left: u32,
     many_done: bool,
+    /// slots of contracts created as their own admin
+    self_admin: Vec<u32>,
     nodes_left: u32,
     uniq: u32,
     /// keys written recently (reads, removes and queries are biased towards them: read-after-write,
@@ -626,6 +629,25 @@ impl<'a> Gen<'a> {
     }
 
     fn top_msg(&mut self) -> MsgSpec {
+        if !self.self_admin.is_empty() && self.rng.chance(1, 12) {
+            // a contract that is its own admin migrates itself through a sub-message it wants a reply for
+            // (directly, or by calling itself): the reply belongs to the new code
+            self.nodes_left = self.p.max_nodes;
+            let slot = *self.rng.pick(&self.self_admin);
+            let code = self.rng.below(self.n_codes as u64) as u32;
+            let migrate = MsgSpec::Migrate { target: Target::SelfAddr, code, node: Box::new(self.node(2)) };
+            let inner = if self.rng.chance(1, 2) {
+                migrate
+            } else {
+                let nid = self.next_nid();
+                let carrier = Node { nid, subs: vec![Sub { msg: migrate, id: 2, reply_on: 0, payload: vec![], reply: None }], ..Default::default() };
+                MsgSpec::Exec { target: Target::SelfAddr, node: Box::new(carrier), funds: vec![] }
+            };
+            let mut root = self.node(3);
+            let reply = Some(Box::new(self.node(3)));
+            root.subs.insert(0, Sub { msg: inner, id: *self.rng.pick(&IDS), reply_on: if self.rng.chance(1, 2) { 1 } else { 3 }, payload: vec![], reply });
+            return MsgSpec::Exec { target: Target::Contract(slot), node: Box::new(root), funds: vec![] };
+        }
         // top-level messages are mostly contract calls
         if self.rng.chance(3, 4) && self.n_slots > 0 {
             self.nodes_left = self.p.max_nodes;
@@ -784,7 +806,7 @@ fn gen_case(rng: &mut Rng, cfg: &Cfg) -> Case {
     let plain_accounts = plain_accounts.min(n_accounts.saturating_sub(1) as u8);
     // the favourite admin: account 0, or (half of the runs that have one) the plain-named "owner"
     let admin_acct = if plain_accounts > 0 && rng.chance(1, 2) { n_accounts - 1 } else { 0 };
-    let mut g = Gen { rng, p, nid: 0, n_accounts, n_denoms, n_validators, n_codes: 0, n_slots: 0, n_live: 0, admin_bias, admin_acct, huge_left: n_denoms.saturating_sub(1), many_done: false, nodes_left: 0, uniq: 0, recent: vec![] };
+    let mut g = Gen { rng, p, nid: 0, n_accounts, n_denoms, n_validators, n_codes: 0, n_slots: 0, n_live: 0, admin_bias, admin_acct, huge_left: n_denoms.saturating_sub(1), many_done: false, self_admin: vec![], nodes_left: 0, uniq: 0, recent: vec![] };
     let mut ops = vec![];
     // setup prefix: codes and a few contracts (at least two from the same code)
     let ncodes = 2 + g.rng.below(3);
@@ -815,12 +837,17 @@ fn gen_case(rng: &mut Rng, cfg: &Cfg) -> Case {
         let admin = match g.rng.below(5) {
             0 => None,
             1 if i > 0 => Some(Target::Contract(0)),
-            // its own admin
-            4 => Some(Target::Contract(slot)),
+            // its own admin (made so right after its creation, by its first admin)
+            4 => Some(Target::Account(0)),
             _ => Some(if g.admin_bias { Target::Account(g.admin_acct) } else { Target::Account(g.rng.below(n_accounts as u64) as u32) }),
         };
+        let own_admin = admin == Some(Target::Account(0)) && g.rng.chance(1, if g.admin_bias { 4 } else { 2 });
         let funds = if g.rng.chance(1, 2) { vec![CoinSpec { denom: 0, amt: Amt::Abs(g.rng.range(1, 40)) }] } else { vec![] };
         ops.push(Op::HInstantiate { sender: g.rng.below(n_accounts as u64) as u32, code, slot, node, funds, label: format!("c{}", slot), admin, salt: None });
+        if own_admin {
+            g.self_admin.push(slot);
+            ops.push(Op::Exec { sender: 0, msg: MsgSpec::UpdateAdmin { target: Target::Contract(slot), admin: Target::Contract(slot) }, sweep: false });
+        }
         g.n_live += 1;
         // most contracts get working capital, so that funds attached by contracts do not always overdraw
         if g.rng.chance(3, 4) {
